@@ -308,7 +308,7 @@ def crash_enum(ctx, tool, pairs, pre_points):
         other_b = open(other, "rb").read()
         log = os.path.join(d, "trace.log")
         rc, out = L.strace_run([tool, "crash-helper", d, new_id], log=log)
-        if rc != 0:
+        if rc not in (0, 3):        # 3 = the save was rejected
             ctx.fail("correspondence", "traced UpdateSpec run failed (strace rc=%d)" % rc, {"log": out[-1000:]})
             continue
         accepted = out.strip().endswith("OK")
@@ -322,12 +322,13 @@ def crash_enum(ctx, tool, pairs, pre_points):
             continue
         window = [s for s, _ in calls[b + 1:e]]
 
-        def one(s, k):
+        def one(s, k, faults=None):
+            """kill on entry of call #k of s; or (faults = raw strace inject expressions) injected errors / error + kill"""
             open(victim, "wb").write(old)
             open(other, "wb").write(other_b)
             klog = os.path.join(d, "kill.log")
-            rc, out = L.strace_run([tool, "crash-helper", d, new_id], log=klog, inject=(s, k))
-            pos, name = killed_at(klog) if rc != 0 else (len(window) + 1, None)
+            rc, out = L.strace_run([tool, "crash-helper", d, new_id], log=klog, inject=faults or (s, k))
+            pos, name = killed_at(klog) if rc not in (0, 3) else (len(window) + 1, None)
             left = open(victim, "rb").read() if os.path.exists(victim) else None
             oth = open(other, "rb").read() if os.path.exists(other) else None
             lrc, lout, _ = vlib.run_tool(tool, ["crash-list", d])
@@ -340,8 +341,9 @@ def crash_enum(ctx, tool, pairs, pre_points):
                     os.remove(os.path.join(d, "dags", fn))
             want = new if accepted else old
             lcode = 0 if left == old else 1 if left == b"" else 2 if left == want else 3
-            r = {"kind": "save-crash", "old": old_id, "new": new_id, "accepted": accepted, "syscall": s, "when": k, "left_code": lcode,
-                 "pos": pos, "window": window, "killed": rc != 0, "left": classify_bytes(left, old, new if accepted else old),
+            r = {"kind": "save-fault" if faults else "save-crash", "faults": faults, "verdict": {0: "accepted", 3: "rejected"}.get(rc, "killed"),
+                 "old": old_id, "new": new_id, "accepted": accepted, "syscall": s, "when": k, "left_code": lcode,
+                 "pos": pos, "window": window, "killed": rc not in (0, 3), "left": classify_bytes(left, old, new if accepted else old),
                  "left_len": None if left is None else len(left), "neighbour_intact": oth == other_b,
                  "listed": listing.get("listed"), "list_errs": listing.get("errs"), "files": listing.get("files"),
                  "uninterrupted": "new" if new != old else "old"}
@@ -372,6 +374,27 @@ def crash_enum(ctx, tool, pairs, pre_points):
                 k += 1 if r["pos"] < j else -1
                 if k < 1:
                     break
+        # faults on the save's own path (full disk, quota, file size limit, directory not writable, I/O error): every call
+        # of the save from its first occurrence on fails with an error (when=k+), alone and followed by a kill in what
+        # the code does next; a save that is rejected must leave the old text, an accepted one the new text
+        if accepted and window:
+            first = {}
+            seen_w = dict((sname, c) for sname, c in ((x, sum(1 for y, _ in calls[:b + 1] if y == x)) for x in set(window)))
+            for sname in window:
+                seen_w[sname] += 1
+                first.setdefault(sname, seen_w[sname])
+            errs = {"openat": "EACCES", "write": "ENOSPC", "fchmod": "EPERM", "fsync": "EIO", "close": "EIO", "renameat": "EACCES",
+                    "renameat2": "EACCES", "unlinkat": "EACCES", "ftruncate": "ENOSPC"}
+            for sname, k in sorted(first.items()):
+                one(sname, k, faults=["%s:error=%s:when=%d+" % (sname, errs.get(sname, "EIO"), k)])     # persistent
+                if sname in ("openat", "write", "renameat"):
+                    one(sname, k, faults=["%s:error=%s:when=%d" % (sname, errs.get(sname, "EIO"), k)])  # once
+            kw = first.get("write")
+            ko = first.get("openat")
+            if kw and ko:
+                # the temporary file cannot be created / written once, and the process is killed at its next write
+                one("openat", ko, faults=["openat:error=EACCES:when=%d" % ko, "write:signal=SIGKILL:when=%d" % kw])
+                one("write", kw, faults=["write:error=ENOSPC:when=%d" % kw, "write:signal=SIGKILL:when=%d" % (kw + 1)])
         missed = [j for j, _ in targets if j not in hit]
         if missed:
             ctx.notes.append("save-crash %s->%s: kill points %s of the save were not hit" % (old_id, new_id, missed))
@@ -388,7 +411,7 @@ def crash_model(ctx, recs, texts):
     (after Validate and Exists); a kill on entry of call j of the window = 2 + j completed steps."""
     want = []
     for r in recs:
-        if r["pos"] is None:
+        if r["pos"] is None or r["kind"] == "save-fault":
             continue
         if r["pos"] < 0:
             n = 0
@@ -481,6 +504,8 @@ def run(ctx, replay_cases=None):
     if tool is None:
         ctx.fail("correspondence", "harness does not build against /repo", {"log": out[-2000:]})
         return ctx.finish()
+    import time as _t
+    t_phase = {"start": _t.time()}
     if replay_cases is None:
         corpus = os.path.join(vlib.VERIF, "corpus", "C18.jsonl")
         pre = vlib.read_jsonl(corpus) if os.path.exists(corpus) else []
@@ -506,6 +531,7 @@ def run(ctx, replay_cases=None):
     if not texts["T0"]["valid"]:
         ctx.fail("monitor", "the template text written by CreateDAG is not a valid definition", {"text": "T0"})
 
+    t_phase["driver_done"] = _t.time()
     # ---- monitors --------------------------------------------------------------------------
     nops = 0
     kinds, results, streams = {}, {}, {}
@@ -532,6 +558,7 @@ def run(ctx, replay_cases=None):
             case["failing_op"] = min(i, len(case["ops"]) - 1)
             ctx.fail("monitor", what, case, cls=cls)
 
+    t_phase["monitors_done"] = _t.time()
     # ---- model -----------------------------------------------------------------------------
     good = [c for c in cases if not c.get("fatal")]
     for c, i, code in model_check(ctx, good, texts):
@@ -540,11 +567,12 @@ def run(ctx, replay_cases=None):
                  (i, o["op"], o.get("name", ""), CODES.get(code, code)),
                  dict(slim(c, i), failing_op=i, impl_result=o["res"], impl_err=o.get("err"), impl_defs=o["dump"]["defs"]))
 
+    t_phase["model_done"] = _t.time()
     # ---- save-crash ------------------------------------------------------------------------
     pairs = [("T1", "T2"), ("T2", "T3"), ("T1", "T6"), ("T5", "T1"), ("T1", "T5"), ("T2", "T4"), ("T1", "T9")]
     if ctx.tier == "thorough":
         pairs += [("T6", "T1"), ("T0", "T7"), ("T6", "T3"), ("T7", "T0")]
-    recs = crash_enum(ctx, tool, pairs, pre_points=6 if ctx.tier == "quick" else 400)
+    recs = crash_enum(ctx, tool, pairs, pre_points=3 if ctx.tier == "quick" else 400)
     ckinds = {}
     for r in recs:
         ckinds[r["left"]] = ckinds.get(r["left"], 0) + 1
@@ -554,12 +582,21 @@ def run(ctx, replay_cases=None):
             ctx.fail("monitor", "after a kill on entry of %s #%d during UpdateSpec the DAG listing is %s with %s errors (files: %s): "
                      "a left-over of the save is shown as a DAG, or a DAG is missing" % (r["syscall"], r["when"], r["listed"], r["list_errs"], r["files"]),
                      r, cls={"class": "save-crash-listing"})
+        if r["kind"] == "save-fault" and r["left"] in ("old", "new") and \
+                ((r["verdict"] == "rejected" and r["left"] != "old" and r["old"] != r["new"]) or (r["verdict"] == "accepted" and r["left"] != "new")):
+            ctx.fail("monitor", "under the injected fault %s the save was %s but the definition holds the %s text" % (r["faults"], r["verdict"], r["left"]),
+                     r, cls={"class": "save-fault-verdict"})
         if r["left"] not in ("old", "new"):
             in_window = r["pos"] is not None and 0 <= r["pos"] <= len(r["window"])
             cls = {"class": "save-killed-after-truncate" if (r["left"] == "prefix-of-new" and in_window) else "save-crash-garbage"}
-            ctx.fail("monitor", "after a kill on entry of %s #%d during UpdateSpec the definition holds neither the old nor the "
-                     "new text (%s, %s bytes)" % (r["syscall"], r["when"], r["left"], r["left_len"]), r, cls=cls)
+            how = ("under the injected fault %s (save %s)" % (r["faults"], r["verdict"])) if r["kind"] == "save-fault" else \
+                  ("after a kill on entry of %s #%d" % (r["syscall"], r["when"]))
+            ctx.fail("monitor", "%s during UpdateSpec the definition holds neither the old nor the new text (%s, %s bytes)"
+                     % (how, r["left"], r["left_len"]), r, cls=cls)
     crash_model(ctx, recs, texts)
+    t_phase["crash_done"] = _t.time()
+    ks = list(t_phase)
+    ctx.cov["phase_seconds"] = {ks[i + 1]: round(t_phase[ks[i + 1]] - t_phase[ks[i]], 1) for i in range(len(ks) - 1)}
 
     # ---- evidence --------------------------------------------------------------------------
     ctx.cov["evaluations"] = nops + len(recs)
